@@ -2,6 +2,7 @@ package props
 
 import (
 	"fmt"
+	"github.com/go-kid/ioc/app"
 	"math"
 	"strings"
 
@@ -258,14 +259,39 @@ func (p c12) start(c *core.Ctx) {
 	nl := c.Rng.Intn(7)
 	var loaders []configure.Loader
 	ldClass := map[string]part{}
+	ldCode := map[string]int{}
 	for k := 0; k < nl; k++ {
 		cl := c.Rng.Intn(4)
 		ord := ordPool[c.Rng.Intn(len(ordPool))]
 		name := fmt.Sprintf("ld%d", k)
 		loaders = append(loaders, world.NewLoader(cl, name, ord, []byte(fmt.Sprintf("k%d: %d\n", k, k)), nil))
+		ldCode[name] = cl
 		ldClass[name] = part{k, map[int]int{0: 2, 1: 1, 2: 0, 3: 2}[cl], ord}
 	}
-	r := world.Build(sc, world.Options{Extra: extra, Loaders: loaders})
+	// two distinct loader objects that are equal field by field (same class, order, content): two participants
+	wantLoads := map[string]int{}
+	var twin configure.Loader
+	for name := range ldClass {
+		wantLoads[name] = 1
+	}
+	if nl > 0 && c.Rng.Intn(4) == 0 {
+		k := c.Rng.Intn(nl)
+		name := fmt.Sprintf("ld%d", k)
+		twin = world.NewLoader(ldCode[name], name, ldClass[name].ord, []byte(fmt.Sprintf("k%d: %d\n", k, k)), nil)
+		wantLoads[name] = 2
+		c.Count("starts_with_field_wise_equal_loaders", 1)
+	}
+	opts := world.Options{Extra: extra, Loaders: loaders}
+	if twin != nil {
+		// every loader is added through the adding option, one by one (the twin last)
+		opts.Loaders = nil
+		for _, l := range loaders {
+			opts.AppOptions = append(opts.AppOptions, app.AddConfigLoader(l))
+		}
+		opts.AppOptions = append(opts.AppOptions, app.AddConfigLoader(twin))
+		loaders = append(loaders, twin)
+	}
+	r := world.Build(sc, opts)
 	for _, l := range loaders {
 		l.(world.LoggedLoader).Core().Log = r.Log
 	}
@@ -286,7 +312,7 @@ func (p c12) start(c *core.Ctx) {
 		}
 	}
 	for name := range ldClass {
-		if seenL[name] != 1 {
+		if seenL[name] != wantLoads[name] {
 			c.Fail("", fmt.Sprintf("loader %s was invoked %d times", name, seenL[name]), failDetail(sc, r, nil))
 			return
 		}
@@ -352,6 +378,21 @@ func (p c12) start(c *core.Ctx) {
 		key := e.Kind + "|" + e.Who
 		perComp[key] = append(perComp[key], ppClass[e.By])
 		cnt[key+"|"+e.By]++
+	}
+	// every component whose creation started after the chain was complete gets every creation callback from
+	// every participant - whether or not it has any tagged field
+	if npp > 0 {
+		for name, st := range startSeq {
+			if _, isNode := nodeNamed(sc, name); !isNode || st <= prepEnd || name == supplied {
+				continue
+			}
+			for _, kind := range []string{"pp-before-inst", "pp-after-inst", "pp-properties", "pp-before", "pp-after"} {
+				if _, ok := perComp[kind+"|"+name]; !ok {
+					c.Fail("", fmt.Sprintf("component %q was created after the chain was complete but received no %s callback at all", name, kind), failDetail(sc, r, map[string]any{"events": renderEvents(ev, 200)}))
+					return
+				}
+			}
+		}
 	}
 	for key, seq := range perComp {
 		if supplied != "" && strings.HasSuffix(key, "|"+supplied) {
